@@ -40,6 +40,12 @@ def case_key(c):
     return vlib.canon_key({"runs": [{"name": r["name"], "checked": sorted(r["checked"]), "diags": sorted(r["diags"])} for r in c["runs"]]})
 
 
+def is_foreign(c):
+    """Some run reports a problem in a file it did not check."""
+    fileof = {d["id"]: d["file"] for d in DESCS}
+    return any(fileof[i] not in r["checked"] for r in c["runs"] for i in r["diags"])
+
+
 def norm_case(c, idx):
     return {"idx": idx,
             "runs": [{"name": r["name"], "checked": sorted(r["checked"]), "diags": sorted(r["diags"])} for r in c["runs"]],
@@ -257,14 +263,33 @@ def run(ctx):
     cases = [norm_case(c, i) for i, c in enumerate(r.cases)]
     if len(cases) != r.distinct - 1:
         raise Inconclusive("TLC emitted %d cases for %d states" % (len(cases), r.distinct))
+    # 1b. the same with runs that report problems in files they did not check (Foreign = TRUE): <= 2 runs over all
+    # descriptors, <= 3 runs over three descriptors; indices continue after the first family
+    rf = []
+    for cfgname in ("MCMerge_foreign2.cfg", "MCMerge_foreign3.cfg"):
+        r2 = vlib.run_tlc(ctx, "MCMerge", cfgname, workers=min(vlib.NCPU, 8), timeout=1200)
+        vlib.tlc_require_ok(r2, "Merge laws (%s)" % cfgname)
+        if len(r2.cases) != r2.distinct - 1:
+            raise Inconclusive("TLC emitted %d cases for %d states (%s)" % (len(r2.cases), r2.distinct, cfgname))
+        rf.append(r2)
+    fcases, seen_f = [], set()
+    for r2 in rf:
+        for c in r2.cases:
+            nc = norm_case(c, len(cases) + len(fcases))
+            if not is_foreign(nc):
+                continue          # already in the first family
+            k = case_key(nc)
+            if k not in seen_f:
+                seen_f.add(k)
+                fcases.append(nc)
     small = [c for c in cases if len(c["runs"]) <= 2]
     big = [c for c in cases if len(c["runs"]) == 3]
     if ctx.quick:
-        chosen = small + vlib.sample(ctx, big, 20000)
-        via_binary = vlib.sample(ctx, small, 250) + vlib.sample(ctx, big, 250)
+        chosen = small + vlib.sample(ctx, big, 20000) + vlib.sample(ctx, fcases, 12000)
+        via_binary = vlib.sample(ctx, small, 200) + vlib.sample(ctx, big, 200) + vlib.sample(ctx, fcases, 150)
     else:
-        chosen = cases
-        via_binary = vlib.sample(ctx, small, 2000) + vlib.sample(ctx, big, 6000)
+        chosen = cases + fcases
+        via_binary = vlib.sample(ctx, small, 2000) + vlib.sample(ctx, big, 6000) + vlib.sample(ctx, fcases, 2000)
     mism, summary = replay_cases(ctx, "", helper, chosen)
     mism_b, summary_b = replay_cases(ctx, sc, helper, via_binary)
     byidx = {c["idx"]: c for c in chosen}
@@ -291,8 +316,10 @@ def run(ctx):
     n_matrix, msample = matrix_binding(ctx, sc)
 
     ctx.coverage = {
-        "states": r.distinct,
-        "transitions": r.generated,
+        "states": r.distinct + sum(x.distinct for x in rf),
+        "transitions": r.generated + sum(x.generated for x in rf),
+        "foreign_file_cases_enumerated": len(fcases),
+        "foreign_file_cases_replayed": len([c for c in chosen if c["idx"] >= len(cases)]),
         "traces_validated_against_impl": summary["cases"] + summary_b["cases"] + n_matrix,
         "exhaustive": not ctx.quick,
         "tlc": {"module": "MCMerge", "config": "MCMerge_gen3laws.cfg", "wall_s": round(r.wall, 1),
@@ -308,5 +335,6 @@ def run(ctx):
     }
     ctx.assumptions = [
         "runs are modelled as (build name, checked files, problem set); Severity/Related/SuggestedFixes are constant across runs",
-        "bounds: <= 3 runs, 2 files, 5 descriptors, build names from <<b1,b2,''>> in restricted-growth order",
+        "bounds: <= 3 runs, 2 files, 5 descriptors, build names from <<b1,b2,''>> in restricted-growth order; runs that report "
+        "problems in files they did not check: <= 2 runs over the 5 descriptors, <= 3 runs over 3 descriptors",
     ]
